@@ -12,13 +12,14 @@ elements (no bounds); the non-residues are parameters.
 §3  the specialised forms equal the generic operation under their precondition (sparse operands; cyclotomic subgroup:
     Granger–Scott squaring, Karabina compressed squaring and decompression, conjugation as inverse);
 §4  the stacked model as the driver executes it is carried to ring operations by evaluation at the adjoined roots;
-§5  loops (square-and-multiply);
+§5  loops (square-and-multiply, the signed-digit loop of the cyclotomic exponentiations, simultaneous inversion);
 §6  what is NOT true of the code: the exceptional branch of the decompression (finding C10-F8).
 
 Not covered by theorems (class C, compared with the specification on the presented lines only): the digit-level lazy
 reduction (double-precision accumulators, fp_addc_low/fp_subc_low corrections), Frobenius through the precomputed
-constant tables, the NAF / sparse / GLS cyclotomic exponentiation loops, square roots, simultaneous inversion,
-serialisation, the compressed forms of fp18 / fp24 / fp48 / fp54.
+constant tables, the table construction / recoding glue and the sparse / compressed-squaring / GLS paths of the cyclotomic
+exponentiations (the signed-digit loop itself is §5), square roots, serialisation, the compressed forms of fp18 / fp24 /
+fp48 / fp54 (same formulas over larger block fields; specification only).
 -/
 import RelicVerif.Lemmas.Tower
 import RelicVerif.Lemmas.Fpx
@@ -265,5 +266,19 @@ theorem fp12_model_is_tower_arithmetic (p : Nat) (hodd : p % 2 = 1) (q : Int) (h
 /-- fpN_exp, plain branch: left-to-right square-and-multiply over the bits below the leading one computes the power -/
 theorem exp_square_and_multiply {E : Type} {o : FOps E} {ev : E → S} {half : S} (h : OpsHom o ev half) (a : E)
     (bits : List Bool) : ev (expBin o a bits) = ev a ^ bitsVal bits := expBin_eq h a bits
+
+/-- fpN_inv_sim (Montgomery's trick): over a field, the list of inverses whenever no operand is zero -/
+theorem inv_sim_montgomery {F : Type} [Field F] [DecidableEq F] (hf : F) (as : List F) (hnz : ∀ a ∈ as, a ≠ 0) :
+    invSim (fieldOps hf) as = as.map (·⁻¹) := invSim_spec hf as hnz
+example : ∀ a ∈ [(2 : ℚ), 3, 5], a ≠ 0 := by intro a ha; simp at ha; rcases ha with rfl | rfl | rfl <;> norm_num
+
+/-- the signed-digit (w-NAF) loop of fpN_exp_cyc — the loop `mulSigned` of Model/MulAlg.lean read multiplicatively, with
+    the table t[i] = a^(2i+1), cyclotomic squaring as squaring and conjugation as inversion — returns a^k in any
+    commutative group, k the integer the digits denote -/
+theorem exp_cyc_signed_digit_loop {H : Type} [CommGroup H] (a : H) (tab : List H)
+    (htab : ∀ i, i < tab.length → tab.getD i 1 = a ^ (2 * (i : ℤ) + 1)) (ds : List Int)
+    (hd : ∀ d ∈ ds, d = 0 ∨ (d % 2 ≠ 0 ∧ d.natAbs < 2 * tab.length)) :
+    Relic.Model.MulAlg.mulSigned (⟨1, (· * ·), (·⁻¹)⟩ : Relic.Model.MulAlg.Ops H) tab 1 ds = a ^ (Relic.Model.Rec.eval 1 ds) :=
+  expCycNaf_spec a tab htab ds hd
 
 end Relic.Props.C10
